@@ -82,8 +82,6 @@ struct thr {
 	enum role role;
 	struct vp_rng rng;
 	struct vp_thr *vt;
-	/* cumulative, written by the owner only */
-	uint64_t n_upd, n_lookup;
 	/* watchdog state */
 	int in_call, offline_at_call;
 	unsigned long call_arg;
@@ -102,6 +100,8 @@ struct thr {
 };
 
 static struct thr T[MAXT];
+/* cumulative operation counters (never reset; read by hooks on library threads at any time) */
+static struct { uint64_t n_upd, n_lookup; char pad[48]; } g_cum[MAXT];
 static int g_nthr;
 static struct cds_lfht *g_ht;
 static struct tstate *g_ts;
@@ -182,14 +182,14 @@ static inline uint64_t sum_upd(void)
 {
 	uint64_t s = 0;
 	for (int i = 0; i < MAXT; i++)
-		s += VP_LOAD(T[i].n_upd);
+		s += VP_LOAD(g_cum[i].n_upd);
 	return s;
 }
 static inline uint64_t sum_lookup(void)
 {
 	uint64_t s = 0;
 	for (int i = 0; i < MAXT; i++)
-		s += VP_LOAD(T[i].n_lookup);
+		s += VP_LOAD(g_cum[i].n_lookup);
 	return s;
 }
 
@@ -622,7 +622,8 @@ static void life_hook(int point, const void *ctx)
 				g_worker_tid = (int) syscall(SYS_gettid);
 			if (tl_rz.open)
 				rz_close(0, 0);
-			VP_STORE(g_worker_active, 0);
+			memset(&tl_rz, 0, sizeof(tl_rz));
+			__atomic_store_n(&g_worker_active, 0, __ATOMIC_RELEASE);
 		}
 		return;
 	case URCU_VP_HT_LAZY_RESIZE:
